@@ -3,6 +3,24 @@
 def cbytes(b):
     if isinstance(b, str):
         b = b.encode('latin-1')
+    if len(b) > 1500:
+        # long strings: run-length encoded (Coq's parser overflows its stack on very long list literals)
+        segs, i = [], 0
+        while i < len(b):
+            j = i
+            while j < len(b) and b[j] == b[i]:
+                j += 1
+            if j - i >= 32:
+                segs.append("repeat %d%%N (N.to_nat %d%%N)" % (b[i], j - i))
+                i = j
+            else:
+                k = i
+                while k < len(b) and k - i < 1000 and not (k + 32 <= len(b) and len(set(b[k:k + 32])) == 1):
+                    k += 1
+                k = max(k, i + 1)
+                segs.append("[" + ";".join(str(x) for x in b[i:k]) + "]%N")
+                i = k
+        return "(" + " ++ ".join(segs) + ")"
     return "([" + ";".join(str(x) for x in b) + "])%N" if len(b) else "(@nil N)"
 
 def cN(n):
